@@ -11,7 +11,7 @@ LEVEL = "exploration"
 ENGINE = "E1"
 TECHNIQUE = "bounded exhaustive enumeration of operator trees x contexts x listings on the real code vs reference matcher"
 RULE = ("instruction level: every operator tree of depth 1 (3 operators x all child sequences of length 2..3 over 4 base "
-        "items) and depth 2 (3 operators x all ordered pairs over base items + depth-1 binary trees [quick: 3 base items]) "
+        "items) and depth 2 (3 operators x all ordered pairs over base items + depth-1 binary trees [quick: 3 base items]); thorough: every depth-3 tree combining a base item with a depth-2 binary tree over {mov,push} "
         "each alone and (depth 1, and depth 2 in thorough) in the context 'ret, T, ret' / 'T, ret'; operand level: every "
         "tree of depth 1..2 over 3 operand names placed as only operand item, before and after a plain operand item; "
         "$deref level: every $or of 2..3 alternatives in each deref field; long-listing family: $and / $and_any_order / $or sequences whose only occurrence touches each 4096..65536 instruction boundary of listings up to 65539 (thorough 131075) instructions; wide/deep family: $or of 8/16/25 alternatives with the matching one first/middle/last, $and_any_order of 4 and 5 children (with duplicates) on every listing of length 4 / 5, nesting chains of depth 3..6; x EVERY listing up to the bound over the "
@@ -125,8 +125,25 @@ def wide_deep_rules(tier):
     return rules
 
 
+def depth3_rules():
+    """thorough: every depth-3 tree with one base child and one depth-2 binary tree over 2 base items, both child orders"""
+    W = ("verdict", "aligned", "genuine")
+    base = ["mov", "push"]
+    d1 = [{op: [a, b]} for op in OPS for a in base for b in base]
+    pool2 = base + d1
+    d2 = [{op: [a, b]} for op in OPS for a in pool2 for b in pool2 if isinstance(a, dict) or isinstance(b, dict)]
+    rules = []
+    for op in OPS:
+        for leaf in base + ["ret"]:
+            for t in d2:
+                rules.append(e1.RuleCase("I3", [{op: [leaf, t]}], "instr", want=W))
+                rules.append(e1.RuleCase("I3", [{op: [t, leaf]}], "instr", want=W))
+    return rules
+
+
 def all_rules(tier):
-    return instr_rules(tier) + operand_rules(tier) + deref_rules(tier) + wide_deep_rules(tier)
+    extra = depth3_rules() if tier == "thorough" else []
+    return instr_rules(tier) + operand_rules(tier) + deref_rules(tier) + wide_deep_rules(tier) + extra
 
 
 def shards(tier):
